@@ -190,6 +190,19 @@ def run(ctx):
         ctx.check('R2', 'Pool.add_worker: a failed registration removes the worker from both tables, terminates it and re-raises', ok, 'Pool.add_worker',
                   f'failure-handler:dels={sorted(dels)},terminate={term},reraise={rer}',
                   'a worker whose construction or registration fails is leaked (left running / left in a table) or the error is swallowed', where=loc(aw, h))
+        # the handler decides whether there is a worker to clean up by testing the local for truth (`if worker:` - it is None until the constructor has
+        # returned): that is only "a worker exists" as long as no class of the worker hierarchy gives its instances a truth value of their own
+        from ..astutil import truth_tested
+        truth_sites = [leaf for leaf, st in truth_tested(h) if is_name(leaf, AWV)]
+        if truth_sites:
+            W0 = ctx.prog.cls('Worker')
+            redefs = [(c0, m) for c0 in ctx.prog.classes.values() if not isinstance(c0, str) and W0 in [x for x in c0.mro() if not isinstance(x, str)]
+                      for m in ('__bool__', '__len__') if m in c0.methods]
+            ctx.check('R2', f'Pool.add_worker tests the new worker for truth ({len(truth_sites)} site): no worker class defines __bool__ / __len__', not redefs, 'Pool.add_worker',
+                      'worker-truthiness-redefined:' + ','.join(f'{c0.name}.{m}' for c0, m in redefs),
+                      (f'{redefs[0][0].name}.{redefs[0][1]} gives worker objects a truth value of their own' if redefs else '') +
+                      f': `if {AWV}:` in the failure handler of add_worker is then false for a live worker (e.g. one that has no inputs yet), which is neither unregistered nor '
+                      'terminated when its registration fails - it outlives the pool', where=loc(redefs[0][0].methods[redefs[0][1]], redefs[0][0].methods[redefs[0][1]].node) if redefs else loc(aw, h))
     else:
         ctx.check('R2', 'Pool.add_worker has a failure handler', False, 'Pool.add_worker', 'no-failure-handler', 'add_worker does not clean up after a failed registration', where=loc(aw, aw.node))
     rw = pool.methods['restart_workers']
